@@ -47,6 +47,12 @@ impl Deserializer {
         ensures old(self).rem().len() > 0 && old(self).rem()[0] is Arr ==> r is Ok && r->Ok_0 == cbor_event::Len::Len(old(self).rem()[0]->Arr_0) && final(self).rem() == old(self).rem().skip(1),
                 old(self).rem().len() > 0 && old(self).rem()[0] is ArrIndef ==> r is Ok && r->Ok_0 is Indefinite && final(self).rem() == old(self).rem().skip(1),
                 r is Ok ==> old(self).rem().len() > 0 && (old(self).rem()[0] is Arr || old(self).rem()[0] is ArrIndef) { unimplemented!() }
+    #[verifier::external_body] pub fn map(&mut self) -> (r: Result<cbor_event::Len, CborError>)
+        ensures old(self).rem().len() > 0 && old(self).rem()[0] is Map ==> r is Ok && r->Ok_0 == cbor_event::Len::Len(old(self).rem()[0]->Map_0) && final(self).rem() == old(self).rem().skip(1),
+                old(self).rem().len() > 0 && old(self).rem()[0] is MapIndef ==> r is Ok && r->Ok_0 is Indefinite && final(self).rem() == old(self).rem().skip(1),
+                r is Ok ==> old(self).rem().len() > 0 && (old(self).rem()[0] is Map || old(self).rem()[0] is MapIndef) { unimplemented!() }
+    #[verifier::external_body] pub fn text(&mut self) -> (r: Result<String, CborError>)
+        ensures r is Ok ==> old(self).rem().len() > 0 && old(self).rem()[0] is Text && final(self).rem() == old(self).rem().skip(1) { unimplemented!() }
     #[verifier::external_body] pub fn tag(&mut self) -> (r: Result<u64, CborError>)
         ensures old(self).rem().len() > 0 && old(self).rem()[0] is Tag ==> r is Ok && r->Ok_0 == old(self).rem()[0]->Tag_0 && final(self).rem() == old(self).rem().skip(1),
                 // a typed token that is not a tag: an error, nothing consumed (cbor_event checks the type before it reads)
@@ -64,6 +70,7 @@ pub enum Key { Str(String), Uint(u64) }
 pub enum DeserializeFailure {
     OutOfRange { min: usize, max: usize, found: usize }, EndingBreakMissing, CBOR(CborError), CustomError(String),
     TagMismatch { found: u64, expected: u64 }, FixedValueMismatch { found: Key, expected: Key }, ExpectedNull, NoVariantMatched, Other,
+    DuplicateKey(Key), UnknownKey(Key), BreakInDefiniteLen, MandatoryFieldMissing(Key), UnexpectedKeyType(CBORType),
 }
 #[verifier::external_body] pub struct DeserializeError { _p: core::marker::PhantomData<u8> }
 impl DeserializeError {
